@@ -117,6 +117,19 @@ def trace_check(data):
         return f"traced program differs from untraced: {got_src!r} vs {want_src!r}"
     if p2.dumps() != before:
         return "tracing changed the serialised bytes"
+    # a trace through an interpreter configured the way the CLI configures one for a stack member
+    # (own variable numbering and result name) is passive too: what the object itself decompiles
+    # to afterwards is what it decompiles to without any trace
+    p6 = Pickled.load(data)
+    try:
+        with contextlib.redirect_stdout(io.StringIO()):
+            Trace(Interpreter(p6, first_variable_id=7, result_variable="result1")).run()
+        after6 = ast.unparse(p6.ast)
+    except Exception as e:  # noqa: BLE001
+        return f"after a trace with CLI-style naming, decompiling the object raised {type(e).__name__}: {e}"
+    if after6 != want_src:
+        return (f"after a trace with its own variable numbering / result name, Pickled.ast gives {after6!r}; "
+                f"untraced it is {want_src!r}")
     # opcodes after the first STOP (appended to the object after loading) are never executed, by
     # whichever entry point
     try:
@@ -275,8 +288,71 @@ def shards(tier):
     runs = 30000 if tier == "quick" else 1500000
     out += [{"kind": "atheris", "runs": runs, "idx": i} for i in range(1 if tier == "quick" else 6)]
     out += [{"kind": "cli_stack", "n": 60 if tier == "quick" else 1500, "idx": i} for i in range(8)]
+    # untyped programs: every token sequence over a small alphabet whose every prefix the VM accepts
+    out += [{"kind": "raw_enum", "L": 5 if tier == "quick" else 7, "part": i, "nparts": 16} for i in range(16)]
+    out += [{"kind": "raw_enum", "core": True, "L": 6 if tier == "quick" else 8, "part": i, "nparts": 16}
+            for i in range(16)]  # fmt: skip
     _ = pres
     return out
+
+
+# tokens of the untyped enumeration: containers, small ints, the in-place update opcodes applied to
+# whatever happens to be there (SETITEM on a list is `lst[k] = v` in the VM), stack and memo traffic
+RAW_TOKENS = (b"]", b"}", b"K\x00", b"K\x01", b"N", b"a", b"s", b"(", b"e", b"u", b"0", b"2", b"\x94", b"h\x00")
+
+
+def _vm_accepts_all(tokens):
+    """does the reference VM execute every one of these opcodes (whatever happens at STOP)?"""
+    n = [0]
+    cyc = [False]
+
+    def on_op(vm, key):
+        n[0] += 1
+        if n[0] <= len(tokens) and not cyc[0]:
+            roots = [x for s in vm.metastack for x in s] + list(vm.stack) + list(vm.memo.values())
+            cyc[0] = _has_cycle(roots)
+
+    run_ref(b"".join(tokens) + b".", on_op=on_op)
+    # a container that contains itself is outside the quantifier (see ASSUMPTIONS)
+    return n[0] >= len(tokens) and not cyc[0]
+
+
+def _has_cycle(roots):
+    path = set()
+
+    def walk(v):
+        if isinstance(v, (list, tuple)):
+            kids = v
+        elif isinstance(v, dict):
+            kids = list(v.keys()) + list(v.values())
+        else:
+            return False
+        if id(v) in path:
+            return True
+        path.add(id(v))
+        try:
+            return any(walk(k) for k in kids)
+        finally:
+            path.discard(id(v))
+
+    return any(walk(r) for r in roots)
+
+
+RAW_CORE = RAW_TOKENS[:4] + (b"a", b"s", b"(", b"e", b"u")
+
+
+def raw_programs(L, part, nparts, RAW_TOKENS=RAW_TOKENS):
+    firsts = [(a, b) for a in RAW_TOKENS for b in RAW_TOKENS]
+    stack = [list(pre) for pre in firsts[part::nparts]]
+    if part == 0:
+        stack += [[t] for t in RAW_TOKENS]
+    while stack:
+        toks = stack.pop()
+        if not _vm_accepts_all(toks):
+            continue
+        yield toks
+        if len(toks) < L:
+            stack.extend(toks + [t] for t in RAW_TOKENS)
 
 
 def run_shard(spec, seed):
@@ -336,6 +412,24 @@ def run_shard(spec, seed):
         res.info["exhaustive_subspace"] = (
             f"all typed programs over the {len(prof.ops)}-op focus alphabet with <= {spec['L']} "
             "opcodes before STOP (count in enumerated_programs)"
+        )
+    elif spec["kind"] == "raw_enum":
+        alphabet = RAW_CORE if spec.get("core") else RAW_TOKENS
+        for toks in raw_programs(spec["L"], spec["part"], spec["nparts"], alphabet):
+            data = b"".join(toks) + b"."
+            # stepping on every program; the trace clause on those that leave a value
+            f = check_bytes(data, do_trace=len(toks) % 2 == 0)
+            names = _names(data)
+            res.note(None, len(names) >= 3 and bool(set(names) & (MARK_CONSUMERS | MEMO_OPS)), klass="raw",
+                     sample={"raw": data.hex()})
+            res.extra["raw_programs"] = res.extra.get("raw_programs", 0) + 1
+            if f is not None:
+                res.failures.append(f)
+                break
+        res.exhaustive = True
+        res.info["exhaustive_subspace_raw_core" if spec.get("core") else "exhaustive_subspace_raw"] = (
+            f"all sequences of <= {spec['L']} tokens over the {len(alphabet)}-token untyped alphabet "
+            "every prefix of which the reference VM executes (count in raw_programs)"
         )
     elif spec["kind"] == "random":
         # every other shard also draws the protocol-5 out-of-band buffer opcodes
